@@ -131,7 +131,7 @@ class BaseSimulation(metaclass=ABCMeta):
     def save_results(self, output_file: str):
         """Save results to directory."""
         data = self.get_results_to_save()
-        save_json(output_file, data)
+        save_json(data, output_file)
 
     @abstractmethod
     def get_results(self):
